@@ -260,6 +260,8 @@ func oracles(c *hx.Ctx, p *pkg, k kase, o *observation) {
 	}
 	f := p.Fmt
 	desc := p.describe
+	// a member whose name is nearly a declared part's name is not taken for that part
+	nearNameOracle(c, p, k, o)
 	if len(E) == 0 {
 		// nothing declared is readable: the reader must not present anything else instead
 		shown := false
@@ -477,6 +479,9 @@ func (p *pkg) describe() string {
 			fmt.Fprintf(&b, "{decoy %s name=%q notes=%s target=%q member=%q} ", d.Tok, d.Name, d.NotesTok, d.NotesRef, d.NotesName)
 		}
 	}
+	for _, t := range p.Twins {
+		fmt.Fprintf(&b, "{near-name %s/%s %q ~ %q} ", t.Kind, t.Role, t.Name, t.Of)
+	}
 	b.WriteString("] zip=[")
 	for _, i := range p.ZipOrder {
 		b.WriteString(p.Docs[i].name + " ")
@@ -676,7 +681,7 @@ func hrefOps(c *hx.Ctx, from, n int) {
 }
 
 func Run(c *hx.Ctx) {
-	c.Rep.Rule = "packages: XLSX / PPTX / EPUB 2+3 written by the harness's own writers from a logical package = declared list (1-6 parts, each with a unique text token; states ok/missing/malformed/dangling/wrong-kind), decoy parts (unreferenced; some listed in rels/manifest but not declared), XLSX sheetId values a random permutation (non-ascending, sparse) unrelated to position and to r:id, PPTX speaker-notes parts with their own unique token behind the slide's own relationship part (for readable, unreadable and decoy slides; conventional/renamed/absolute targets, numbered independently of the slides), part paths nested/renamed/absolute/with dot segments, file numbers a random permutation of the declared order, ZIP member order another random permutation, optional parts (rels, sharedStrings, docProps, mimetype, NCX, nav) randomly absent; hrefs percent-encoded in 4 styles incl. space, unicode, '+', '%', '#'. call sequences: on one opened reader of every package that opens, 2-6 generated calls (xlsx ExtractOptions.Sheets / pptx ExtractOptions.SlideNumbers selections through TextWithOptions, MarkdownWithOptions, MarkdownWithRAGOptions: a single part that is not the first, suffix, ascending non-prefix subset, reversed list, permutation, subset in any order, prefix, and lenient selections with out-of-range or repeated indices; epub TextWithOptions/MarkdownWithOptions with the 4 navigation modes; Text, Markdown, Document, part accessors, Tables/SheetByName/Metadata interleaved, repeated), the statement evaluated on every accessor after every call and against a fresh reader, and the model compared once more with the used reader. href ops: structured (reference built from the member it denotes) and junk strings. non-trivial = the package opened with at least one part; distinct by op line"
+	c.Rep.Rule = "packages: XLSX / PPTX / EPUB 2+3 written by the harness's own writers from a logical package = declared list (1-6 parts, each with a unique text token; states ok/missing/malformed/dangling/wrong-kind), decoy parts (unreferenced; some listed in rels/manifest but not declared), XLSX sheetId values a random permutation (non-ascending, sparse) unrelated to position and to r:id, PPTX speaker-notes parts with their own unique token behind the slide's own relationship part (for readable, unreadable and decoy slides; conventional/renamed/absolute targets, numbered independently of the slides), part paths nested/renamed/absolute/with dot segments, file numbers a random permutation of the declared order, ZIP member order another random permutation, optional parts (rels, sharedStrings, docProps, mimetype, NCX, nav) randomly absent; hrefs percent-encoded in 4 styles incl. space, unicode, '+', '%', '#'; near-name members in a quarter of the packages (1-2 members whose name differs from a declared part's only in the letter case of one path segment, in NFC/NFD form, or that is the EPUB href without percent-decoding; as a second declared part, an unreferenced left-over or a listed left-over, on either side in ZIP order, also beside a missing declared member). call sequences: on one opened reader of every package that opens, 2-6 generated calls (xlsx ExtractOptions.Sheets / pptx ExtractOptions.SlideNumbers selections through TextWithOptions, MarkdownWithOptions, MarkdownWithRAGOptions: a single part that is not the first, suffix, ascending non-prefix subset, reversed list, permutation, subset in any order, prefix, and lenient selections with out-of-range or repeated indices; epub TextWithOptions/MarkdownWithOptions with the 4 navigation modes; Text, Markdown, Document, part accessors, Tables/SheetByName/Metadata interleaved, repeated), the statement evaluated on every accessor after every call and against a fresh reader, and the model compared once more with the used reader. href ops: structured (reference built from the member it denotes) and junk strings. non-trivial = the package opened with at least one part; distinct by op line"
 	n := c.N(600, 9000)
 	only := os.Getenv("C18_FMT") // debugging aid: restrict the stream to one format
 	for i := 0; i < n; i++ {
